@@ -93,11 +93,13 @@ def generate(rng, opts):
     if r.random() < opts.get("json_layout_share", 0.3):
         # output side on arrays the JSON reader can never produce: every node class, index width and numeric dtype,
         # strided and offset buffers (the reader only builds int64/float64/bool leaves below ListOffsetArray64)
-        lopts = {"layout_max_depth": r.choice([1, 2, 3]), "layout_no_bytes": True}
+        lopts = {"layout_max_depth": r.choice([1, 2, 3]), "layout_no_bytes": True,
+                 "layout_exotic_dtypes": r.random() < 0.4}     # complex128 (written as records) and datetime64 (refused)
         t = lg.gen_type(r, 0, lopts)
         n = r.choice([0, 1, 2, 3, 5, 8])
         spec = lg.SpecGen(r, lopts).array(t, n)
         return {"mode": "layout", "spec": spec, "type": t, "cfg": cfg, "initial": r.choice(bm.INITIAL), "resize": r.choice(bm.RESIZE),
+                "complex_fields": r.choice([["r", "i"], ["real", "imag"], None]),
                 "out": {"maxdecimals": r.choice([-1, -1, -1, 3]), "buffersize": r.choice(BUFSIZES)}}
     g = Gen(r, opts, allow_nonfinite=cfg["nan"] is not None)
     ndocs = r.choice([1, 1, 1, 2, 3, 5])
@@ -324,11 +326,16 @@ def check_one(node, case, rec, data, label, fault_kind, do_output):
         node.drop(o[2])
 
 
-def json_view(v, cfg):
+def json_view(v, cfg, complex_fields=None):
     """the JSON value a walker value must be written as; returns (value, has_unwritable_nonfinite)"""
     bad = [False]
 
     def conv(x):
+        if isinstance(x, complex):
+            if complex_fields is None:
+                bad[0] = True
+                return None
+            return ("rec", None, [(complex_fields[0], conv(x.real)), (complex_fields[1], conv(x.imag))])
         if isinstance(x, float):
             if math.isnan(x):
                 if cfg["nan"] is None:
@@ -370,15 +377,21 @@ def check_output(node, case, rec, h, value):
         # (stubbed) writer
         rec.probe("scalar_root_not_written")
         return
-    want, unwritable = json_view(value, cfg)
+    cf = case.get("complex_fields")
+    want, unwritable = json_view(value, cfg, cf)
     texts = []
     for via in (0, 1, 2, 3):
         try:
             t = node.tojson(h, via, buffersize=case["out"]["buffersize"], maxdecimals=case["out"]["maxdecimals"],
-                            nan=cfg["nan"], inf=cfg["inf"], minf=cfg["minf"])
+                            nan=cfg["nan"], inf=cfg["inf"], minf=cfg["minf"], cre=cf[0] if cf else None, cim=cf[1] if cf else None)
         except NodeError as e:
             if e.cls in ("nonstd",):
                 raise Violation("robustness", "nonstd_exception", {"error": [e.cls, e.msg[:300]]})
+            if e.cls == "invalid_argument" and ("cannot convert Numpy format" in e.msg or
+                                                (cf is None and "Complex numbers can't be converted to JSON" in e.msg)):
+                # documented: datetimes have no JSON form, complex numbers need complex_record_fields
+                rec.probe("to_json_refused_for_dtype")
+                return
             raise Violation("output", "to_json_raised", {"via": via, "error": [e.cls, e.msg[:300]],
                                                          "value": vm.to_jsonable(value)})
         texts.append(t)
